@@ -115,7 +115,7 @@ func (r *Run) checkAccess(p Ptr, n int64, write bool) {
 		r.fail("nil-deref", "nil pointer dereference", "")
 	}
 	if p.Obj.Unseeded {
-		r.engineFail("read of foreign package global %s whose initialisation is not modelled", p.Obj.Name)
+		r.initForeign(p.Obj)
 	}
 	if p.Off < 0 || p.Off+n > p.Obj.Size {
 		r.fail("oob", fmt.Sprintf("access [%d,%d) outside object of size %d", p.Off, p.Off+n, p.Obj.Size),
@@ -711,4 +711,42 @@ func (r *Run) mustConcreteString(s Str, what string) string {
 		r.engineFail("%s: string is not concrete", what)
 	}
 	return v
+}
+
+// initForeign runs, on first use, the initialiser of a package outside the
+// repository whose package-level variable is about to be read (tables of
+// unicode/utf8, strconv, ...). The package's own dependencies are not
+// initialised recursively; if its initialiser needs something the engine
+// cannot execute, the path is inconclusive.
+func (r *Run) initForeign(o *Object) {
+	g := o.Global
+	if g == nil || g.Pkg == nil {
+		r.engineFail("read of foreign global %s whose initialisation is not modelled", o.Name)
+	}
+	pkg := g.Pkg
+	if r.initOK[pkg] {
+		r.engineFail("foreign global %s is still uninitialised after running %s.init", o.Name, pkg.Pkg.Path())
+	}
+	r.initOK[pkg] = true
+	for g2, o2 := range r.globals {
+		if g2.Pkg == pkg {
+			o2.Unseeded = false
+		}
+	}
+	init := pkg.Func("init")
+	if init == nil {
+		return
+	}
+	mon, strict := r.monitor, r.strict
+	r.monitor, r.strict = false, false
+	saveFrame, saveDepth := r.frame, r.depth
+	r.callFn(init, nil, nil, 0)
+	r.frame, r.depth = saveFrame, saveDepth
+	r.monitor, r.strict = mon, strict
+	// globals materialised during init are initialised by definition
+	for g2, o2 := range r.globals {
+		if g2.Pkg == pkg {
+			o2.Unseeded = false
+		}
+	}
 }
